@@ -3,12 +3,12 @@
 # /repo at HEAD gets seeded<wave>/Cxx/patch.diff applied, ./check runs against it (VERIF_REPO), the worktree is removed.
 # Prints the VIOLATION / summary lines; does not touch /repo's working tree nor the recorded result files.
 w=$1; id=$2
-d=/verif/seeded$([ "$w" = 1 ] || echo $w)/$id
+d=$(cd "$(dirname "$0")" && pwd)/seeded$([ "$w" = 1 ] || echo $w)/$id
 wt=/tmp/reseed/$id-$w
 mkdir -p /tmp/reseed
 git -C /repo worktree remove --force $wt 2>/dev/null
 git -C /repo worktree add -q --detach $wt HEAD || exit 2
 if ! git -C $wt apply $d/patch.diff 2>/dev/null; then echo "$id wave $w: patch does not apply to HEAD"; git -C /repo worktree remove --force $wt; exit 3; fi
-cd /verif
+cd "$(dirname "$0")"
 VERIF_REPO=$wt ./check $id 2>&1 | grep -E "^(VIOLATION|C[0-9][0-9] tier)" | sed "s/^/$id wave $w: /"
 git -C /repo worktree remove --force $wt
